@@ -25,11 +25,11 @@ const (
 )
 
 type state struct {
-	env            *wire.Env
-	ba, bu         sdkmath.Int // book reserves
-	da, du         sdkmath.Int // donations (bank - book)
-	la, lu         sdkmath.Int // liquidity of the other pools
-	pool           ammtypes.Pool
+	env    *wire.Env
+	ba, bu sdkmath.Int // book reserves
+	da, du sdkmath.Int // donations (bank - book)
+	la, lu sdkmath.Int // liquidity of the other pools
+	pool   ammtypes.Pool
 }
 
 func setup(useOracle bool, fee sdkmath.LegacyDec) *state {
@@ -93,6 +93,7 @@ func swapArgs() (in, out, wallet sdkmath.Int) {
 // UpdatePoolForSwap on a constant-product pool with a positive swap fee: fee skim to the
 // treasury, OnCollectFee, cache-context conversion of the fee into the fee denom
 // (real pricing, nested UpdatePoolForSwap, write-back).
+//
 //vrf:cover swap-ok
 //vrf:bound 1 pool x 2 assets, weights 1:1, fee in (0, 2%], amounts unbounded; exact-in form
 func H_UpdatePoolForSwap_Fee_ExactIn() {
@@ -130,6 +131,7 @@ func H_UpdatePoolForSwap_Fee_ExactOut() {
 }
 
 // Oracle pool: weight-breaking fee (negative bonus) and treasury bonus (positive bonus).
+//
 //vrf:cover swap-ok bonus-neg bonus-pos
 //vrf:bound oracle pool, zero swap fee, bonus symbolic in [-1, 1], oracle amounts symbolic
 func H_UpdatePoolForSwap_Oracle_Bonus() {
